@@ -15,7 +15,7 @@ ASSUMPTIONS = ["the comparison is against the library's own computation on a fre
 NSHARDS = {"quick": 32, "thorough": 64}
 BUDGET_S = {"quick": 200, "thorough": 2400}
 MIN_HITS = {
-    'quick': {"history": 15791, "sighash_step": 10924, "probe": 283100, "mut_after_fill": 4227, "slots_nonempty": 15557, "op_set_input": 9659, "op_set_output": 5742, "long_history": 48},
+    'quick': {"history": 15791, "sighash_step": 11702, "probe": 286990, "mut_after_fill": 4227, "slots_nonempty": 16123, "op_set_input": 9659, "op_set_output": 5742, "long_history": 48},
     'thorough': {"history": 478308, "sighash_step": 1036683, "probe": 8997147, "mut_after_fill": 204552, "op_set_input": 837109, "op_set_output": 503130, "long_history": 5760},
 }
 
